@@ -229,6 +229,16 @@ func init() {
 		}
 		externWrites[name] = noWrites
 	}
+	externs["github.com/aws/aws-sdk-go/aws/awserr.New"] = func(f *Frame, b *ssa.BasicBlock, in *ssa.Call, args []Val, st *State, g string) Val {
+		e := f.e
+		e.note("assumed contract: awserr.New returns a non-nil error value; no heap effect on existing objects")
+		r := e.freshConst(hname(f, in, "awserr"), "Iface")
+		e.assume(app("iface_ok", r))
+		e.assume(not(eq(app("i_tag", r), "0")))
+		return Val{T: r}
+	}
+	externWrites["github.com/aws/aws-sdk-go/aws/awserr.New"] = noWrites
+	externReads["github.com/aws/aws-sdk-go/aws/awserr.New"] = func(fn *ssa.Function) []hkey { return nil }
 	externWrites["strings.Fields"] = noWrites
 	externReads["strings.Fields"] = func(fn *ssa.Function) []hkey { return nil }
 	externWrites["strings.Join"] = noWrites
